@@ -208,6 +208,7 @@ func (c09) Run(c *Case, src *vs.Src) *Result {
 	w.K.MaxElapsed = 20 * time.Second
 	w.K.MaxSteps = 300000
 	w.K.HangNs = 8e9
+	w.K.MaxSteps = 40000 // the longest flood takes a few thousand steps; an endpoint that keeps answering the same input is cut short here
 	env := NewEnv(w)
 	var rc *EPConf
 	o := &peer.Opts{Suites: []uint16{p.Suite}}
